@@ -7,6 +7,7 @@ import (
 	"fmt"
 	"net"
 	"strings"
+	"time"
 
 	"github.com/pascaldekloe/mqtt"
 )
@@ -210,6 +211,39 @@ func init() {
 			}
 			if err := await(c.PublishExactlyOnce([]byte("x"), "ok")); err != nil {
 				e.violate("C09", "capacity-consumed-by-denied", "PublishExactlyOnce after denied requests: %v", err)
+			}
+			// acknowledgements emitted by the read routine for boundary identifiers
+			for _, id := range []uint16{1, 0x7fff, 0x8000, 0xffff} {
+				for _, qos := range []int{1, 2} {
+					conn.reset()
+					conn.mu.Lock()
+					conn.in = append(conn.in, encPublish(qos, false, false, id, "in", []byte("x"))...)
+					conn.in = append(conn.in, encPublish(0, false, false, 0, "in", []byte("y"))...) // makes the reader come back
+					if qos == 2 {
+						conn.in = append(conn.in, encAck(tPUBREL, id)...)
+						conn.in = append(conn.in, encPublish(0, false, false, 0, "in", []byte("z"))...)
+					}
+					conn.cond.Broadcast()
+					conn.mu.Unlock()
+					want := [][]byte{encAck(tPUBACK, id)}
+					if qos == 2 {
+						want = [][]byte{encAck(tPUBREC, id), encAck(tPUBCOMP, id)}
+					}
+					var got []byte
+					for i := 0; i < 2000; i++ {
+						conn.mu.Lock()
+						got = clone(conn.out)
+						conn.mu.Unlock()
+						if len(got) >= 4*len(want) {
+							break
+						}
+						time.Sleep(time.Millisecond)
+					}
+					e.evals++
+					if !bytes.Equal(got, bytes.Join(want, nil)) {
+						e.violate("C09", "ack-packet", "inbound QoS %d PUBLISH %#04x: the client wrote %x, want %x", qos, id, got, bytes.Join(want, nil))
+					}
+				}
 			}
 			// Ping and Disconnect
 			conn.reset()
